@@ -16,7 +16,7 @@ RULE = (
     "UnitSystemManager.ConvertScalarToCurrent, number operands on both sides, sums whose operand was created directly on a derived quantity that writes two categories of one quantity type in different units. Invariant after every step: a deep "
     "snapshot of every pool member (class, value / container type, identity and contents, FractionValue number, "
     "numerator, denominator, unit, category, quantity identity, the quantity's composing map, composing units and unit name, dimension) and of every caller-owned container is "
-    "unchanged; arithmetic results are new objects; copy, deepcopy, CreateCopy(), pickle == original. CreateCopy() and pickle round trips made while another database (a second instance of the shipped table) is current still equal the original. Non-trivial = "
+    "unchanged; arithmetic results are new objects; copy, deepcopy, CreateCopy(), pickle == original. CreateCopy() and pickle round trips made while another database (a second instance of the shipped table) is current still equal the original. Captions also accompany known units. Non-trivial = "
     "sequence with a step that converts units on an operand holding a caller-owned mutable container or a "
     "FractionValue; key = the sequence."
 )
@@ -156,7 +156,8 @@ class Machine:
             vals = [VALUES[(vi + k) % len(VALUES)] for k in range(2 + n % 3)]
             from barril.units import ObtainQuantity
 
-            q = ObtainQuantity(u, c, "cap" if (cap % 4 == 0 and c == "Unknown") else None)
+            # (a caption may accompany a known unit too; it is part of the quantity all the same)
+            q = ObtainQuantity(u, c, "cap" if (cap % 4 == 0 and c == "Unknown") or cap % 7 == 3 else None)
             what = what % 7
             if what == 0:
                 self.add(Scalar.CreateWithQuantity(q, vals[0]))
